@@ -1,2 +1,3 @@
 import Driver.Util
 import Driver.Tags
+import Driver.Typed
